@@ -474,6 +474,7 @@ impl Basic {
             TimedOp::SetSendWindow { client, v } => {
                 if let Some(inc) = self.pick_conn(w, client) {
                     w.conn_mut(inc).set_send_window(v);
+                    self.wl.send_window_set.insert(inc, v);
                     w.faults.hit("app_set_send_window");
                 }
             }
